@@ -142,6 +142,11 @@ Proof.
 Qed.
 
 (* ------------------------------------------------------------------ the executable statement (Checkers.c13_ok) *)
+Lemma ends_le_nat n m : ends_le n m = Nat.leb n (N.to_nat m + 1).
+Proof. unfold ends_le. destruct (Nat.leb_spec n (N.to_nat m + 1)) as [H|H]; [apply N.leb_le|apply N.leb_gt]; lia. Qed.
+Lemma ends_eq_nat n m : ends_eq n m = (N.to_nat m + 1 =? n)%nat.
+Proof. unfold ends_eq. destruct (Nat.eqb_spec (N.to_nat m + 1) n) as [H|H]; [apply N.eqb_eq|apply N.eqb_neq]; lia. Qed.
+
 Theorem c13_ok_model s o : Inv s -> c13_ok (model_trans s o) = true.
 Proof.
   intros I. unfold model_trans. fold (ghost_reset s).
@@ -149,13 +154,13 @@ Proof.
   unfold c13_ok, paired. cbn [t_post t_pre t_op t_class].
   apply andb_true_iff. split.
   - apply forallb_forall. intros [a a'] Hp. apply in_pairs_gen in Hp. destruct Hp as [Ha F'].
-    cbn [fst snd]. exact (pair13_ok s o out s' a a' I Es Ha F').
+    cbn [fst snd]. cbv zeta. rewrite ends_le_nat, ?ends_eq_nat. exact (pair13_ok s o out s' a a' I Es Ha F').
   - assert (I' : Inv s').
     { assert (Es2 : snd (step (ghost_reset s) o) = s') by (rewrite Es; reflexivity).
       rewrite <- Es2. apply Inv_step, Inv_ghost_reset, I. }
     apply forallb_forall. intros a' Ha'.
     pose proof (inv_auctions _ I') as W. unfold auctions_wf in W. rewrite Forall_forall in W.
     pose proof (awf_ends _ (W a' Ha')) as [H1 H2]. pose proof (awf_maxr _ (W a' Ha')) as H3.
-    rewrite (proj2 (Nat.leb_le _ _) H2), (proj2 (Nat.leb_le _ _) H1). cbn [andb].
+    rewrite ends_le_nat. rewrite (proj2 (Nat.leb_le _ _) H2), (proj2 (Nat.leb_le _ _) H1). cbn [andb].
     apply N.leb_le. exact H3.
 Qed.
